@@ -97,6 +97,12 @@ def check_panics(ctx, report, roots, rule, prop, skip_kinds=(), only_bodies=None
                 if r[1] == site_id:
                     asm = r
                     break
+                # `| *text*`: any spelling of the site in that function whose source text mentions `text`
+                # (e.g. the application-configured `self.query_timeout`, whichever way the sum is written)
+                mm = re.match(r"^(.* \| )\*(.*)\*$", r[1])
+                if mm and site_id.startswith(mm.group(1)) and mm.group(2) in site_id[len(mm.group(1)):]:
+                    asm = r
+                    break
             if asm is not None:
                 assumed_used.append({"site": asm[1], "excluded_by": asm[2]})
                 continue
